@@ -66,7 +66,12 @@ Added after independent mutation testing found a gap:
   transport (not after RST or Tornado's own closing-timeout abort: EITHER), labels
   `transport_closed_by_fin_while_on_message_unfinished` / `peer_close_processed_after_fin`, and the deterministic
   part `goodbye_grid` (6 segmentations x 6 close payloads x 4 interludes x 2 = 288 histories) enumerates exactly these.
-  False alarm corrected while adding this (seed 5): after close() on a transport that the FIN had already closed
+  M12 WebSocketClientConnection.on_ws_connection_close: on_connection_close() (which hands None to the application)
+      called BEFORE close_code / close_reason are stored                 -> C16.reported_close_code (ref, pair and ping parts, seeds 1-3)
+      The reported code/reason are now captured AT THE MOMENT of the notification: inside on_message_callback(None)
+      (vlib/wsharness.ClientSide.close_seen), when the read_message() future resolves with None, and -- server -- the
+      values on_close itself saw; the "== the peer's when its close frame was processed" clause is asserted on those.
+  False alarm corrected while adding M11 (seed 5): after close() on a transport that the FIN had already closed
   nothing reaches the wire, but the 5 s abort timer is armed all the same -- the EITHER guard now uses the time of
   the close() call, not the time the close frame was seen on the wire.
 """
@@ -100,7 +105,7 @@ ASSUMPTIONS = [
 ]
 TECHNIQUE = "stateful property-based testing (Hypothesis op lists) on a virtual clock with the wire decoded by an independent RFC 6455 codec"
 LEVEL_TEXT = (
-    "bounded exploration: ~4800 histories (quick) / ~30k (thorough) of <=16 steps; timing at the granularity of "
+    "bounded exploration: ~4300 histories (quick) / ~30k (thorough) of <=16 steps; timing at the granularity of "
     "the generated advances (incl. +-1 microsecond around the deadlines); no claim for longer histories"
 )
 SHARDS = 16
@@ -314,7 +319,7 @@ def run_ref(ctx, case):
             if not await peer.handshake():
                 return ctx.fail("C16.handshake_failed", {})
             h = rec.handler
-            side = Side("server", peer.stream, peer.poll, lambda: rec.count("close"), lambda: (h.close_code, h.close_reason),
+            side = Side("server", peer.stream, peer.poll, lambda: rec.count("close"), lambda: next(e[1:] for e in rec.events if e[0] == "close"),
                         lambda t: h.write_message(t), lambda d: h.ping(d), lambda c, r: h.close(c, r))
             enc = H.RefEncoder("client")
             got_msgs = rec.messages
@@ -325,7 +330,7 @@ def run_ref(ctx, case):
                 return ctx.fail("C16.handshake_failed", {})
             conn = cl.connect_future.result()
             side = Side("client", cl.stream, peer.poll, lambda: sum(1 for m in cl.received if m is None),
-                        lambda: (conn.close_code, conn.close_reason),
+                        cl.reported_close,
                         lambda t: conn.write_message(t), lambda d: conn.ping(d), lambda c, r: conn.close(c, r))
             enc = H.RefEncoder("server")
             got_msgs = cl.messages
@@ -613,10 +618,10 @@ def run_pair(ctx, case):
 
         sides = {
             "c": Side("client", cl.stream, lambda: poll("c"), lambda: sum(1 for m in cl.received if m is None),
-                      lambda: (conn.close_code, conn.close_reason), lambda t: conn.write_message(t), lambda d: conn.ping(d),
+                      cl.reported_close, lambda t: conn.write_message(t), lambda d: conn.ping(d),
                       lambda c, r: conn.close(c, r)),
             "s": Side("server", pair.session.stream, lambda: poll("s"), lambda: rec.count("close"),
-                      lambda: (h.close_code, h.close_reason), lambda t: h.write_message(t), lambda d: h.ping(d),
+                      lambda: next(e[1:] for e in rec.events if e[0] == "close"), lambda t: h.write_message(t), lambda d: h.ping(d),
                       lambda c, r: h.close(c, r)),
         }
         other = {"c": "s", "s": "c"}
@@ -772,7 +777,7 @@ def run_ping(ctx, case):
             if not await peer.handshake():
                 return ctx.fail("C16.handshake_failed", {})
             h = rec.handler
-            side = Side("server", peer.stream, peer.poll, lambda: rec.count("close"), lambda: (h.close_code, h.close_reason),
+            side = Side("server", peer.stream, peer.poll, lambda: rec.count("close"), lambda: next(e[1:] for e in rec.events if e[0] == "close"),
                         lambda t: h.write_message(t), lambda d: h.ping(d), lambda c, r: h.close(c, r))
             enc = H.RefEncoder("client")
         else:
@@ -785,7 +790,7 @@ def run_ping(ctx, case):
                 return ctx.fail("C16.handshake_failed", {})
             conn = cl.connect_future.result()
             side = Side("client", cl.stream, peer.poll, lambda: sum(1 for m in cl.received if m is None),
-                        lambda: (conn.close_code, conn.close_reason),
+                        cl.reported_close,
                         lambda t: conn.write_message(t), lambda d: conn.ping(d), lambda c, r: conn.close(c, r))
             enc = H.RefEncoder("server")
         peer.decoder.control_after_close_ok = True
@@ -949,6 +954,6 @@ PARTS = {"ref": run_ref, "pair": run_pair, "ping": run_ping, "goodbye_grid": run
 def main(ctx):
     ctx.run_replays(PARTS)
     ctx.enumerate(goodbye_grid(), run_ref, name="goodbye_grid")
-    ctx.explore(ref_case_s, run_ref, ctx.n(2500, 14000), name="ref")
-    ctx.explore(pair_case_s, run_pair, ctx.n(1500, 10000), name="pair")
+    ctx.explore(ref_case_s, run_ref, ctx.n(2000, 14000), name="ref")
+    ctx.explore(pair_case_s, run_pair, ctx.n(1200, 10000), name="pair")
     ctx.explore(ping_case_s, run_ping, ctx.n(800, 6000), name="ping")
